@@ -32,6 +32,8 @@ func plan(tier string) []family {
 				func(emit func(Case)) { Structure(0, 4, []int{0, 1}, emit) }},
 			{"structure: every sequence of <= 3 operations after the create, every chunking into >= 2 commits, concurrent operation on the second replica (true merge)",
 				func(emit func(Case)) { Structure(0, 3, []int{2}, emit) }},
+			{"live cache handle: every sequence of <= 3 operations (set-title, comment, status, labels, edit-comment and set-metadata on the create / latest comment) made and read through one live RepoCache handle, every chunking, with and without Snapshot() before every append",
+				func(emit func(Case)) { Live(3, emit) }},
 		}
 	}
 	return []family{
@@ -39,6 +41,8 @@ func plan(tier string) []family {
 			func(emit func(Case)) { Values(5, emit) }},
 		{"structure: every sequence of <= 4 operations after the create over the 7 kinds, every chunking into commits, one author / alternating authors / concurrent operation on the second replica",
 			func(emit func(Case)) { Structure(0, 4, []int{0, 1, 2}, emit) }},
+		{"live cache handle: every sequence of <= 4 operations (set-title, comment, status, labels, edit-comment and set-metadata on the create / latest comment) made and read through one live RepoCache handle, every chunking, with and without Snapshot() before every append",
+			func(emit func(Case)) { Live(4, emit) }},
 		{"structure: every sequence of exactly 5 operations after the create, every chunking into commits, one author",
 			func(emit func(Case)) { Structure(5, 5, []int{0}, emit) }},
 	}
@@ -165,6 +169,8 @@ func Main(args []string) {
 			l := *maxLen
 			if strings.HasPrefix(fam.Name, "values") {
 				gen = func(emit func(Case)) { Values(l, emit) }
+			} else if strings.HasPrefix(fam.Name, "live cache") {
+				gen = func(emit func(Case)) { Live(min(l, 3), emit) }
 			} else if strings.Contains(fam.Name, "<= 4") {
 				gen = func(emit func(Case)) { Structure(0, l, []int{0, 1, 2}, emit) }
 			} else {
@@ -192,7 +198,7 @@ func Main(args []string) {
 				}
 			}
 		})
-		for v := 0; v < 3; v++ {
+		for v := 0; v < 5; v++ {
 			if len(cur[v]) > 0 {
 				lines = append(lines, strings.Join(cur[v], " "))
 			}
